@@ -51,7 +51,7 @@ def judge(case, raw, cmpr, model):
             # the text writer on the original / of the scanner belong to C10, crashes while executing the original
             # context are the generator's problem.
             st = d.get('@', 'output')
-            if st in ('write', 'write2', 'read', 'output-after-read', 'rewrite', 'file-io', 'exec-after-read', 'probe-after-read'):
+            if st in ('write-module-first', 'write', 'write2', 'read', 'output-after-read', 'rewrite', 'file-io', 'exec-after-read', 'probe-after-read'):
                 bad.append(('crash:' + st, '%s build: crash (%s) in stage %s' % (tag, d['CRASH'], st)))
                 continue
             if st in ('output', 'exec-original'):
@@ -69,6 +69,22 @@ def judge(case, raw, cmpr, model):
             continue
         if d.get('T1') != '=':
             bad.append(('text-differs-after-read', '%s: MIR_output differs after the binary round trip' % tag))
+        if d.get('S1', '=') != '=':
+            s0 = K.text_of(d, 'S0')
+            bad.append(('structure-differs-after-read', '%s: the module read back differs structurally (API fields) from the module '
+                        'written: %s' % (tag, K.first_diff(s0, K.text_of(d, 'S1', s0)))))
+        if d.get('TS', '=') != '=' or d.get('SS', '=') != '=':
+            # modules written from several contexts (newctx) and read into one: the combined context must print and be
+            # what the writing contexts printed and were
+            t0, s0 = K.text_of(d, 'T0'), K.text_of(d, 'S0')
+            bad.append(('segments-differ-after-read', '%s: modules written context by context and read into one context differ from '
+                        'what was written: %s' % (tag, K.first_diff(K.text_of(d, 'TS', t0), t0) if d.get('TS', '=') != '='
+                                                  else K.first_diff(K.text_of(d, 'SS', s0), s0))))
+        if d.get('P1', '').startswith('ERR'):
+            bad.append(('write-error', '%s: MIR_write_module_with_func refused: %s' % (tag, d.get('P1'))))
+        if d.get('WH', '=') != '=':
+            bad.append(('write-history-differs', '%s: the bytes of a module set depend on what the context wrote before / on the '
+                        'entry point: %s' % (tag, d.get('WH'))))
         if d.get('WF', '=') != '=':
             bad.append(('file-writer-differs', '%s: MIR_write (FILE*) and MIR_write_with_func give different bytes: %s' % (tag, d.get('WF'))))
         if 'RM' in d and (d.get('RM') != 'ok' or d.get('TM') != '='):
@@ -94,6 +110,12 @@ def judge(case, raw, cmpr, model):
                 bad.append(('ldpad', 'raw bytes carry non-zero bytes in the padding of a long double token'))
             else:
                 bad.append(('tie:raw-bytes', 'model writer and MIR_write_with_func produce different raw bytes'))
+        if 'MW' in raw and 'MW' in model and raw['MW'] != model['MW'] and model['W1'] == raw['W1']:
+            bad.append(('tie:raw-bytes-module', 'model writer and MIR_write_module_with_func produce different raw bytes for a '
+                        'module written on its own (the image is not a function of the module alone)'))
+        if 'S0' in model and 'S0' in raw and model['S0'] != raw['S0'] and model['W1'] == raw['W1']:
+            bad.append(('tie:structure', 'the context built through the API is not the described one (model AST vs API structures): '
+                        + K.first_diff(K.text_of(model, 'S0'), K.text_of(raw, 'S0'))))
         if model.get('RB') != 'ok' and raw.get('RB') == 'ok':
             bad.append(('tie:model-reader', 'model reader rejects its own bytes: %s' % model.get('RB')))
         elif model.get('AST') == 'differs':
@@ -138,6 +160,7 @@ def run(chk):
     r1, r2, rm = run_cases(chk, exes, cases)
     nfail = 0
     rejected = 0
+    failures = []
     for case, sig, a, b, m in zip(cases, sigs, r1, r2, rm):
         ks = K.stmt_kinds(case)
         chk.count(case, nontrivial=ks.get('insn', 0) + ks.get('data', 0) >= 3)
@@ -167,26 +190,39 @@ def run(chk):
             continue
         chk.dist('outcome', 'fail')
         nfail += 1
-        if nfail > 6:
-            continue
-        cls, what = bad[0]
-        if sig is None and not cls.startswith('tie:') and len(case) < 60000 and nfail <= 2:
-            # shrink (the first two failures only) while the same class of failure reproduces; only the
-            # program that showed it is re-run
-            which = ('raw',) if what.startswith('raw') else ('cmpr',) if what.startswith('compressed') else ('raw', 'model')
+        failures.append((case, sig, bad))
+    # Concrete failing inputs first.  A case on which only the tie (model vs implementation) breaks is the report
+    # "no-failing-input-found"; it is made only when the search found no concrete failing input in this run,
+    # otherwise it is a note (the concrete inputs are the replay).
+    concrete = [f for f in failures if not f[2][0][0].startswith('tie:')]
+    tie_only = [f for f in failures if f[2][0][0].startswith('tie:')]
+    reported = 0
+    for group in (concrete, tie_only):
+        if group is tie_only and reported > 0:
+            if tie_only:
+                chk.notes.append('tie disagreements on %d more cases (first: %s), not reported separately: concrete failing inputs '
+                                 'were found' % (len(tie_only), tie_only[0][2][0][0]))
+            break
+        for nth, (case, sig, bad) in enumerate(group[:6]):
+            cls, what = bad[0]
+            if sig is None and not cls.startswith('tie:') and len(case) < 60000 and nth < 2:
+                # shrink (the first two failures only) while the same class of failure reproduces; only the
+                # program that showed it is re-run
+                which = ('raw',) if what.startswith('raw') else ('cmpr',) if what.startswith('compressed') else ('raw', 'model')
 
-            def fails(c):
-                x1, x2, xm = run_cases(chk, exes, [c], which=which)
-                return any(s == cls for s, _ in judge(c, x1[0], x2[0], xm[0]))
-            small = K.shrink_case(case, fails, max_steps=60)
-        else:
-            small = case
-        x1, x2, xm = run_cases(chk, exes, [small])
-        signature = sig or (cls if cls in ('ldpad',) else cls + ':' + hashlib.sha1(small.encode()).hexdigest()[:8])
-        chk.finding(signature, dict(case=small, failure=cls, raw={k: v[:2000] for k, v in x1[0].items()},
-                                    compressed={k: v[:300] for k, v in x2[0].items()},
-                                    model={k: v[:2000] for k, v in xm[0].items()}, original=case[:4000]),
-                    'C11 %s: %s' % (cls, what), no_input=cls.startswith('tie:'))
+                def fails(c):
+                    x1, x2, xm = run_cases(chk, exes, [c], which=which)
+                    return any(s == cls for s, _ in judge(c, x1[0], x2[0], xm[0]))
+                small = K.shrink_case(case, fails, max_steps=60)
+            else:
+                small = case
+            x1, x2, xm = run_cases(chk, exes, [small])
+            signature = sig or (cls if cls in ('ldpad',) else cls + ':' + hashlib.sha1(small.encode()).hexdigest()[:8])
+            if chk.finding(signature, dict(case=small, failure=cls, raw={k: v[:2000] for k, v in x1[0].items()},
+                                           compressed={k: v[:300] for k, v in x2[0].items()},
+                                           model={k: v[:2000] for k, v in xm[0].items()}, original=case[:4000]),
+                           'C11 %s: %s' % (cls, what), no_input=cls.startswith('tie:')):
+                reported += 1
     chk.cov['rule'] = ('generated module descriptions (all item kinds, operand forms, boundary immediates, NaN payloads, strings with '
                       'NULs, several modules per context, a few cases above two compression buffers) built through the API by '
                       'harness/c11_io.c; checked: two writes byte-equal, read(write) prints identically and executes identically '
